@@ -364,6 +364,11 @@ class RenderContext:
             loop_iteration_carry = 1
 
         if block_scope:
+            if disabled_tags is None:
+                # A block is part of the scope it is rendered in. Tags that are
+                # disabled there are disabled in the block too.
+                disabled_tags = set(self.disabled_tags)
+
             ctx = self.__class__(
                 template or self.template,
                 global_data=ReadOnlyChainMap(namespace, self.scope),
